@@ -170,6 +170,19 @@ struct RunnerT : Runner {
             D.factor(Lf, Le, P2);                    // the accumulating call form (forwards to CZfactor)
             return r + showFactors(Lf, Le);
         }
+        if (op == "czf3") {
+            // the exponent list still holds the multiplicities of an earlier factorisation while the factor list was cleared:
+            // the second call has to size and fill the exponents of ITS factors
+            Poly P1 = toPoly(parse(a.at(0))), P2 = toPoly(parse(a.at(1)));
+            std::vector<Poly> Lf; std::vector<uint64_t> Le;
+            D.CZfactor(Lf, Le, P1);
+            Lf.clear();
+            D.CZfactor(Lf, Le, P2);
+            if (Lf.size() != Le.size()) return "SIZES";
+            for (size_t i = 0; i < Lf.size(); ++i) { if (i) r += ' '; r += sh(Lf[i]) + ":" + vp::hex_ull(Le[i]); }
+            if (Lf.empty()) r = "none";
+            return r;
+        }
         if (op == "irr") { Poly P = toPoly(parse(a.at(0))); return D.is_irreducible(P) ? "1" : "0"; }
         if (op == "irr2") { Poly P = toPoly(parse(a.at(0))); return D.is_irreducible2(P) ? "1" : "0"; }
         if (op == "czf") {
@@ -408,6 +421,8 @@ static void generate(const std::string& tier, uint64_t seed) {
             CPoly P1 = mk(), P2 = mk();
             emit_case(R, "czf2", {show(P1), show(P2)});
             emit_case(R, "czfF", {show(P2)});
+            emit_case(R, "czf3", {show(P1), show(P2)});
+            emit_case(R, "czf3", {show(P2), show(P1)});
         }
         // (d) X^p - a, X^(q^j) - X, X^n - 1
         for (uint64_t a = 0; a < R.q && a < 6; ++a) {
